@@ -99,24 +99,13 @@ def hasInboxForwardingValues (F : TFacts) (box : Iri) (maxDepth : Int) : Nat →
     let (types, iris) := getInboxForwardingValues F val
     -- IRIs: do we own them?
     let hit ← iris.foldlM (fun (found : Bool) iri => do
-        if found then pure true else
-        Op.lock iri
-        let r ← Prog.try_ (Op.owns iri)
-        Op.unlock iri
-        match r with
-        | .error e => Prog.fail e
-        | .ok owns => pure owns) false
+        if found then pure true else Op.locked iri (Op.owns iri)) false
     if hit then pure true else
     -- embedded values: their ids
     let hit ← types.foldlM (fun (found : Bool) v => do
         if found then pure true else
         let id ← liftLib (getId F v)
-        Op.lock id
-        let r ← Prog.try_ (Op.owns id)
-        Op.unlock id
-        match r with
-        | .error e => Prog.fail e
-        | .ok owns => pure owns) false
+        Op.locked id (Op.owns id)) false
     if hit then pure true else
     -- fetch the IRIs so as to recur into them
     let fetched ← iris.foldlM (fun (acc : List J) iri => do
@@ -133,13 +122,17 @@ def hasInboxForwardingValues (F : TFacts) (box : Iri) (maxDepth : Int) : Nat →
 def fwdFuel (maxDepth : Int) : Nat := if maxDepth > 0 then maxDepth.toNat + 1 else 64
 
 /-- the load loop of `InboxForwarding`: collections stay locked until the function returns (deferred
-unlock); a failing `Get` returns without unlocking the id just locked -/
+unlock); an id that is already loaded (named twice in to/cc/audience) is not locked again -/
 def fwdLoad (F : TFacts) : List Iri → List (Iri × J) → (List (Iri × J) → Prog α) → Prog α
   | [], cols, k => k cols
-  | iri :: rest, cols, k => do
+  | iri :: rest, cols, k =>
+    if cols.any (·.1 == iri) then fwdLoad F rest cols k else do
     Op.lock iri
-    let t ← Op.get iri
-    let t ← needVal "InboxForwarding: IsOrExtends on nil value" t
+    let r ← Prog.try_ (Op.get iri)
+    match r with
+    | .error e => Op.unlock iri >>= fun _ => Prog.fail e
+    | .ok none => Prog.panic "InboxForwarding: IsOrExtends on nil value"
+    | .ok (some t) =>
     if F.isOrExt "OrderedCollection" (typeName t) || F.isOrExt "Collection" (typeName t) then
       Prog.finally_ (fwdLoad F rest (cols ++ [(iri, t)]) k) (Op.unlock iri)
     else do
@@ -157,29 +150,20 @@ def colMembers (F : TFacts) (t : J) : Prog (List Iri) :=
 def inboxForwarding (F : TFacts) (box : Iri) (a : J) : Prog Unit := do
   -- 1. first time we see this activity?
   let id ← activityIdGet "InboxForwarding: id.Get()" a
-  Op.lock id
-  let r ← Prog.try_ (do
+  let seen ← Op.locked id (do
     let ex ← Op.exists_ id
     if ex then pure true else do
       Op.create a
       pure false)
-  Op.unlock id
-  match r with
-  | .error e => Prog.fail e
-  | .ok true => pure ()
-  | .ok false =>
+  if seen then pure () else
   -- 2. to/cc/audience values that are collections owned by this server
   let rs ← ["to", "cc", "audience"].foldlM (fun (acc : List Iri) p =>
       match prop F a p with
       | none => pure acc
       | some xs => do let ids ← idsM F xs; pure (acc ++ ids)) []
   let myIRIs ← rs.foldlM (fun (acc : List Iri) iri => do
-      Op.lock iri
-      let r ← Prog.try_ (Op.owns iri)
-      Op.unlock iri
-      match r with
-      | .error e => Prog.fail e
-      | .ok owns => pure (if owns then acc ++ [iri] else acc)) []
+      let owns ← Op.locked iri (Op.owns iri)
+      pure (if owns then acc ++ [iri] else acc)) []
   fwdLoad F myIRIs [] fun cols => do
     if cols.isEmpty then pure () else
     -- 3. inReplyTo/object/target/tag owned by this server, within the depth limit
@@ -196,33 +180,32 @@ def inboxForwarding (F : TFacts) (box : Iri) (a : J) : Prog Unit := do
 /-- `addToOutbox` -/
 def addToOutbox (outbox : Iri) (a : J) : Prog Unit := do
   let id ← activityIdGet "addToOutbox: id.Get()" a
-  Op.lock id
-  let r ← Prog.try_ (Op.create a)
-  Op.unlock id
-  match r with
-  | .error e => Prog.fail e
-  | .ok _ =>
+  Op.locked id (Op.create a)
   Op.lock outbox
   Prog.finally_ (do
     let page ← Op.getOutbox outbox
     Op.setOutbox (prependId page id)) (Op.unlock outbox)
 
+/-- the social side effects of `PostOutbox`: the (possibly mutated) activity and whether it is deliverable -/
+def postOutboxEffects (F : TFacts) (cfg : ActorCfg) (socCb : CbConfig → Iri → J → String → J → Prog (J × Bool))
+    (a : J) (outbox : Iri) (raw : J) : Prog (J × Bool) :=
+  if !cfg.social then pure (a, true) else do
+    let cb ← Op.socialCallbacks
+    match dispatchOf F socialDefaults cb.other (typeName a) with
+    | .badCallbacks => Prog.fail .lib
+    | .other i => do Op.otherCb false i a; pure (a, true)
+    | .default ty => do
+      let r ← socCb cb outbox raw ty a
+      pure (r.1, !r.2)
+    | .unmatched => do Op.socialDefault a; pure (a, true)
+
 /-- `PostOutbox`: `socCb` is the table of default social callbacks; it returns the (possibly mutated)
 activity and whether the activity must not be delivered -/
 def postOutbox (F : TFacts) (cfg : ActorCfg) (socCb : CbConfig → Iri → J → String → J → Prog (J × Bool))
     (a : J) (outbox : Iri) (raw : J) : Prog (Bool × J) := do
-  let (a, deliverable) ←
-    if !cfg.social then pure (a, true) else do
-      let cb ← Op.socialCallbacks
-      match dispatchOf F socialDefaults cb.other (typeName a) with
-      | .badCallbacks => Prog.fail .lib
-      | .other i => do Op.otherCb false i a; pure (a, true)
-      | .default ty => do
-        let (a', undeliverable) ← socCb cb outbox raw ty a
-        pure (a', !undeliverable)
-      | .unmatched => do Op.socialDefault a; pure (a, true)
-  addToOutbox outbox a
-  pure (deliverable, a)
+  let r ← postOutboxEffects F cfg socCb a outbox raw
+  addToOutbox outbox r.1
+  pure (r.2, r.1)
 
 /-- `AddNewIDs` -/
 def addNewIDs (F : TFacts) (a : J) : Prog J := do
@@ -242,12 +225,8 @@ def addNewIDs (F : TFacts) (a : J) : Prog J := do
 
 /-- `WrapInCreate` -/
 def wrapInCreateM (F : TFacts) (obj : J) (outbox : Iri) : Prog J := do
-  Op.lock outbox
-  let r ← Prog.try_ (Op.actorForOutbox outbox)
-  Op.unlock outbox
-  match r with
-  | .error e => Prog.fail e
-  | .ok actor => wrapInCreate F obj actor
+  let actor ← Op.locked outbox (Op.actorForOutbox outbox)
+  wrapInCreate F obj actor
 
 /-- `dereferenceForResolvingInboxes`: the actor document (none for a collection) and the ids to expand -/
 def dereferenceForResolvingInboxes (F : TFacts) (u : Iri) : Prog (Option J × List Iri) := do
@@ -265,22 +244,19 @@ def dereferenceForResolvingInboxes (F : TFacts) (u : Iri) : Prog (Option J × Li
     pure (none, more)
   else pure (some actor, [])
 
-/-- `resolveActors`: the named result `err` survives a skipped recipient and is returned if nothing later
-overwrites it (DESIGN F2); `fuel` as in `hasInboxForwardingValues` -/
+/-- `resolveActors`: recipients that cannot be fetched or parsed are skipped; collections are expanded
+recursively while `depth < maxDepth`; `fuel` as in `hasInboxForwardingValues` -/
 def resolveActors (F : TFacts) (maxDepth : Int) : Nat → Nat → List Iri → Prog (List J)
   | 0, _, _ => .panic "resolveActors: recursion not bounded"
   | fuel + 1, depth, r =>
-    if maxDepth > 0 && (depth : Int) ≥ maxDepth then pure [] else do
-    let (actors, lastErr) ← r.foldlM (fun (st : List J × Option Err) u => do
+    if maxDepth > 0 && (depth : Int) ≥ maxDepth then pure [] else
+    r.foldlM (fun (acc : List J) u => do
         let d ← Prog.try_ (dereferenceForResolvingInboxes F u)
         match d with
-        | .error e => pure (st.1, some e)                 -- missing recipient: skip (err stays set)
-        | .ok (act, more) =>
+        | .error _ => pure acc                            -- missing recipient: skip
+        | .ok (act, more) => do
           let recur ← resolveActors F maxDepth fuel (depth + 1) more
-          pure (st.1 ++ (match act with | some x => [x] | none => []) ++ recur, none)) ([], none)
-    match lastErr with
-    | some e => Prog.fail e
-    | none => pure actors
+          pure (acc ++ (match act with | some x => [x] | none => []) ++ recur)) []
 
 /-- `prepare`: the recipient inboxes, and the activity with hidden recipients stripped -/
 def prepare (F : TFacts) (outbox : Iri) (a : J) : Prog (List Iri × J) := do
@@ -291,31 +267,18 @@ def prepare (F : TFacts) (outbox : Iri) (a : J) : Prog (List Iri × J) := do
   let r ← strsOf "prepare: u.String() on nil in filterURLs" r
   let r := filterPublic r
   let (foundInboxes, foundActors) ← r.foldlM (fun (st : List Iri × List Iri) actorIRI => do
-      Op.lock actorIRI
-      let res ← Prog.try_ (Op.inboxForActor actorIRI)
-      Op.unlock actorIRI
+      let res ← Op.locked actorIRI (Op.inboxForActor actorIRI)
       match res with
-      | .error e => Prog.fail e
-      | .ok (some inbox) => pure (st.1 ++ [inbox], st.2 ++ [actorIRI])
-      | .ok none => pure st) ([], [])
+      | some inbox => pure (st.1 ++ [inbox], st.2 ++ [actorIRI])
+      | none => pure st) ([], [])
   let r := foundActors.foldl removeOne r
   Op.newTransport outbox
   let maxDepth ← Op.maxDeliveryDepth
   let actors ← resolveActors F maxDepth (fwdFuel maxDepth) 0 r
   let remote ← getInboxes F actors
   let targets := foundInboxes ++ remote
-  Op.lock outbox
-  let res ← Prog.try_ (Op.actorForOutbox outbox)
-  Op.unlock outbox
-  match res with
-  | .error e => Prog.fail e
-  | .ok actorIRI =>
-  Op.lock actorIRI
-  let res ← Prog.try_ (Op.get actorIRI)
-  Op.unlock actorIRI
-  match res with
-  | .error e => Prog.fail e
-  | .ok thisActor =>
+  let actorIRI ← Op.locked outbox (Op.actorForOutbox outbox)
+  let thisActor ← Op.locked actorIRI (Op.get actorIRI)
   let thisActor ← needVal "prepare: getInbox on nil actor value" thisActor
   let ignore ← getInbox F thisActor
   let targets ← strsOf "prepare: k.String() on nil in dedupeIRIs" targets
